@@ -52,8 +52,10 @@ MAGS = {"float": "(7.5, -3.0, 1.0, 0.0, 123456.0)", "int": "(7, -3, 1, 0, 123456
         "dec": "(Decimal('7.5'), Decimal('-3'), Decimal('1'), Decimal('0'), Decimal('123456'))"}
 
 
-def replay(kindname: str, codes: List[str], tol: float, prelude: str = "", kind: str = "float") -> str:
+def replay(kindname: str, codes: List[str], tol: float, prelude: str = "", kind: str = "float",
+           witness: str = "") -> str:
     us = ", ".join(codes)
+    mags = MAGS[kind] if not witness else "(" + witness + ", " + MAGS[kind][1:]
     return (families.REPLAY_IMPORTS + "from decimal import Decimal\n" + prelude + f"""
 units = [{us}]
 NotFound = measured.conversions.ConversionNotFound
@@ -64,7 +66,7 @@ def conv(m, path):
     return float(q.magnitude)
 bad = []
 try:
-    for m in {MAGS[kind]}:      # magnitudes of the numeric type the obligation failed for
+    for m in {mags}:      # the solver's witness first, then fixed magnitudes of the numeric type the obligation failed for
         mf = float(m)
         if {kindname!r} == 'roundtrip':
             r = conv(m, [units[0], units[1], units[0]])
@@ -99,15 +101,24 @@ def check_pair(acc: work.Acc, u: Any, v: Any, kind: str, tol: float, label: str,
     P = acc.P
 
     def ask(goal: z3.BoolRef, name: str, what: str, rk: str, cs: List[str]) -> None:
-        r, _ = P.check(z3.Not(goal))
+        r, mdl = P.check(z3.Not(goal))
         if r == "unsat":
             acc.ob("unsat", f"{label}/{kind}:{name}", key)
         elif r == "unknown":
             acc.ob("unknown", f"{label}/{kind}:{name}", key)
         else:
             acc.ob("sat", f"{label}/{kind}:{name}", key)
-            acc.out["viol"].append((f"C05:{name}:{label}", f"{what} for {label}",
-                                    replay(rk, cs, max(tol, 1e-9), prelude, kind)))
+            wit = ""
+            if mdl is not None:
+                try:
+                    wit = work.lit(kind, symnum.model_value(mdl, var(kind, "m")))
+                except Exception:
+                    wit = ""
+            # int / Decimal witnesses meet Decimal-context and big-int effects the real-arithmetic model
+            # does not have: they are candidates, confirmed by the replay or reported inconclusive
+            acc.out["viol"].append((f"C05:{name}:{label}", f"{what} for {label}" + (f" at m = {wit}" if wit else ""),
+                                    replay(rk, cs, max(tol, 1e-9), prelude, kind, wit)) +
+                                   (("soft",) if kind != "float" else ()))
 
     zero = z3.substitute(t_uv, (var(kind, "m"), z3.IntVal(0) if kind == "int" else z3.RealVal(0)))
     if collect and kind == "float":
